@@ -242,6 +242,18 @@ func c01Sweep(c *fw.Ctx, cfg ACfg, st AState, rings []wsp.Ring, full bool, lite 
 		}
 	} else {
 		wins = Windows(cfg.Archs, st.Now, full)
+		if cfg.Tag == "LH" {
+			// pairs over a few instants: the retention edge, lengths around 5461 slots, the newest slots
+			wins = nil
+			r0 := cfg.Archs[0].Ret()
+			ins := []int64{st.Now - r0 - 1, st.Now - r0, st.Now - r0 + 1, st.Now - 5470, st.Now - 5461, st.Now - 2539, st.Now - 3, st.Now - 1, st.Now, st.Now + 1}
+			for i, f := range ins {
+				for _, u := range ins[i:] {
+					wins = append(wins, Window{f, u})
+				}
+			}
+			wins = append(wins, Window{st.Now - cfg.Archs[1].Ret(), st.Now}, Window{0, st.Now})
+		}
 		if sig, desc := c01Raw(cfg, f, db); sig != "" {
 			c.Violate(sig, desc, len(st.Bytes), fetchCase{Kind: "raw", Cfg: cfg, Bytes: hexs(st.Bytes), Now: st.Now}, "")
 		}
@@ -320,7 +332,7 @@ func runC01(c *fw.Ctx) {
 	// an archive of 8000 slots (24 pages): windows far longer than any chunk or page a reader might use
 	lh := L("LH", "1s:8000s,400s:16000s")
 	for _, now := range Clocks(lh.Archs, false, []string{"mid"})[1:2] {
-		plans = append(plans, plan{aConfig{lh, 4096, now}, 2, 8}) // the densely written state must be a core state (full sweep)
+		plans = append(plans, plan{aConfig{lh, 4096, now}, 2, 6}) // the densely written state must be a core state (full sweep)
 	}
 	nextra := 0
 	if c.Thorough() {
@@ -333,7 +345,7 @@ func runC01(c *fw.Ctx) {
 			}
 		}
 	}
-	c.R.Bounds["layouts"] = fmt.Sprintf("core L1-L9 + LP (700 slots) + LH (8000 slots, depth 2, 8 core states); thorough: + %d further layouts (every valid list with k<=2, S0<=3, ratio<=4, Ni<=8 and every 12th three-level one) at depth 3", nextra)
+	c.R.Bounds["layouts"] = fmt.Sprintf("core L1-L9 + LP (700 slots) + LH (8000 slots, depth 2, 6 core states); thorough: + %d further layouts (every valid list with k<=2, S0<=3, ratio<=4, Ni<=8 and every 12th three-level one) at depth 3", nextra)
 	c.R.Bounds["history"] = fmt.Sprintf("generator depth %d + 1 operation of the full alphabet from every core state", depth)
 	c.R.Bounds["batch"] = "<=3 arbitrary points in every order + dense batches + future-dated points"
 	c.R.Bounds["pages"] = fmt.Sprintf("4096 on every clock; %v on two phases", pages)
@@ -349,6 +361,11 @@ func runC01(c *fw.Ctx) {
 		ac := pl.ac
 		cfg := ACfg{Tag: ac.ld.Tag, Spec: ac.ld.Spec, Archs: ac.ld.Archs, Method: 2, XFF: 0, Page: ac.page}
 		e := &Explorer{C: c, Cfg: cfg, Now0: ac.now, Depth: pl.depth, Gen: c01Gen(cfg.Archs), Full: c01Full(cfg.Archs), Judge: c01Judge, MaxCore: pl.maxCore}
+		if cfg.Tag == "LH" {
+			// 8000-slot operations are costly: from the core states only the generator alphabet (incl. the dense batch)
+			gen := c01Gen(cfg.Archs)
+			e.Full = func(st AState) []AOp { return gen(st, 0) }
+		}
 		e.OnCore = func(st AState, rings []wsp.Ring) { c01Sweep(c, cfg, st, rings, false, false) }
 		e.OnSucc = func(st AState, rings []wsp.Ring) { c01Sweep(c, cfg, st, rings, false, true) }
 		e.Run()
